@@ -33,6 +33,10 @@ func (g *Gen) preamble() string {
 	b.WriteString("(declare-fun gstr.len (Str) " + idx + ")\n")
 	b.WriteString("(declare-fun gstr.at (Str " + idx + ") " + g.byteSort().SMT() + ")\n")
 	b.WriteString("(declare-fun gstr.id (Str) Int)\n")
+	if g.indexFn && !g.bv {
+		b.WriteString("(declare-fun sl.ix (Int Int) Int)\n")
+		b.WriteString("(assert (forall ((o Int) (i Int)) (! (= (sl.ix o i) (+ o i)) :pattern ((sl.ix o i)))))\n")
+	}
 	for _, d := range g.sortDecls {
 		b.WriteString(d)
 		b.WriteByte('\n')
